@@ -161,6 +161,10 @@ func prepareChar(c *Ctx, cfg CharCfg, rec spg.CharRecipe, seed uint64) (p charPr
 	}
 	if len(p.pilot.Tape.CharLists) > 0 {
 		p.chars = p.pilot.Tape.CharLists[0]
+	} else if curOrders.Chars != "native" {
+		// a successful generation never passed its alphabet through hook H2: the simulator does not
+		// own the index order, nothing can be enumerated (harness trouble, not a verdict)
+		panic(sentCannotDrive)
 	}
 	if g != nil && p.chars != nil {
 		pos := map[string]int{}
